@@ -96,7 +96,15 @@ fn is_marker(e: &Located<ast::Expression>, k: u64) -> bool {
 fn c01_intrinsic_op_keeps_operator_and_operand_order() {
     let op = any_op();
     let module: &'static ir::Module = leak(ir::Module::default());
-    let context = leak(GenerateContext::new(module));
+    // GenerateContext::new would register ~600 reserved names in hash sets (CBMC does not get through that); the
+    // context is only passed through to the stubbed generate_expression, so an empty name map is enough
+    let context = leak(GenerateContext {
+        module,
+        name_map: NameMap::build(module, &[], true),
+        pipeline_description: PipelineDescription { bind_groups: Vec::new() },
+        pixel_entry_for_mesh: None,
+        per_primitive_semantics: HashSet::new(),
+    });
     let expected = same_named(&op);
     let r = match &expected {
         Some(Expected::Unary(_)) => {
